@@ -69,6 +69,11 @@ class C02(Prop):
         cs.append({"name": "known-msa-reverse-window", "sticky": 1, "known_key": "C02:readwindow-msa:reverse-strand-coordinates",
                    "ops": ["file ext=sto hex=" + hx(b"# STOCKHOLM 1.0\n#=GF ID ali0\ns1 ACGU-ACGUAC\ns2 AAAAAAAAAAA\n//\n"), "open fmt=stockholm abc=rna B=4096",
                            "readwin C=0 W=100", "readwin C=0 W=100", "readwin C=0 W=-3"]})
+        # regressions: end_daemon / skip_fasta at a block end (b20bbb4 + skip_fasta guard), skip_whitespace on a byte >= 0x80
+        cs.append({"name": "daemon-block-end", "sticky": 1, "ops": ["file ext=dat hex=" + hx(b">a\nACGAC\n//\n"), "open fmt=daemon abc=text B=10", "read", "read", "close",
+                   "file ext=dat hex=" + hx(b">a\nAC\n//\n>b\nGG\n//\n"), "open fmt=daemon abc=text B=3", "readseq", "readseq", "readseq", "close",
+                   "file ext=dat hex=" + hx(b">a\nAA\nCC\nC\xff\nCC\n"), "open fmt=fasta abc=dna B=64", "readblock list=8 maxres=5 maxseq=-1 init=1 long=1 ctx=0",
+                   "readblock list=8 maxres=5 maxseq=-1 init=1 long=1 ctx=0"]})
         for k, data in enumerate(raw):
             ops = ["file ext=dat hex=" + hx(data)]
             for fmt in ("fasta", "unknown", "embl", "genbank", "daemon", "hmmpgmd"):
@@ -110,7 +115,7 @@ class C02(Prop):
         out = []
         for c in range(n):
             r = rng.random()
-            if rng.random() < 0.06:
+            if rng.random() < 0.10:
                 out.append(S.msaseq_case(rng, c))     # a well-formed alignment file read sequentially as sequences (monitor only)
                 continue
             if r < 0.14:
@@ -169,7 +174,9 @@ class C02(Prop):
                         if rng.random() < 0.3:
                             ops.append("reuse")
                 elif call == "readblock":
-                    lng = 1 if (abc in ("dna", "rna") and rng.random() < 0.7) else 0
+                    # long-target mode is documented for unaligned DNA files only ("DNA, not an alignment"): never on a selection that is,
+                    # or may autodetect to, an alignment format
+                    lng = 1 if (abc in ("dna", "rna") and fmt in ("fasta", "embl", "uniprot", "genbank", "ddbj", "daemon", "hmmpgmd") and rng.random() < 0.7) else 0
                     ls = rng.choice([1, 2, 8])
                     for _ in range(k):
                         ops.append("readblock list=%d maxres=%d maxseq=%d init=%d long=%d ctx=%d" % (ls, rng.choice([-1, 5, 60, 1000]), rng.choice([-1, 1, 3]), rng.choice([0, 1]), lng, rng.choice([0, 0, 3, 20])))
